@@ -331,6 +331,35 @@ def run(ctx):
 
 def import_aliases(ctx, rule):
   prog = ctx.prog
+  # the printed statement carries its alias whenever it has one (the alias decides which name the statement binds:
+  # `import a.b as b` binds b, `import a.b` binds a)
+  fm_ = ctx.func('config_parser.ImportStatement.format')
+  g_f, f_f = std_facts(prog, fm_)
+  from ..lib import format_sites as _fs
+  alias_nodes = []
+  for n_ in g_f.live_nodes():
+    if n_.ast is None or n_.kind not in ('stmt', 'return'):
+      continue
+    for _x, tmpl, ops in _fs(n_.ast):
+      if tmpl is not None and ' as ' in tmpl and any(u(o) == '%s.alias' % fm_.params[0] for o in ops):
+        alias_nodes.append(n_)
+  ok_a = bool(alias_nodes)
+  why_a = 'the formatter no longer prints ` as <alias>`'
+  for n_ in alias_nodes:
+    others = [f_ for f_ in f_f[n_.id] if f_[0] == 'c' and not (f_[1].replace(' ', '') in ('%s.alias' % fm_.params[0], '%s.aliasisNone' % fm_.params[0]))
+              and '%s.is_from' % fm_.params[0] not in f_[1]]
+    if others:
+      ok_a = False
+      why_a = 'the alias is printed only when also `%s` is %s' % (others[0][1], others[0][2])
+  if ok_a:
+    # and no return is reachable with an alias set while avoiding the alias clause
+    tests_alias = [t_ for t_ in g_f.live_nodes() if t_.kind == 'test' and u(t_.ast).replace(' ', '') in ('%s.alias' % fm_.params[0], '%s.aliasisnotNone' % fm_.params[0])]
+    ok_a = bool(tests_alias) or all(isinstance(a_.ast, ast.Return) for a_ in alias_nodes)
+    if not ok_a:
+      why_a = 'the alias clause is not guarded by the alias alone'
+  ctx.check(ok_a, rule, construct(fm_), 'an import statement is printed with its alias whenever it has one',
+            'ImportStatement.format drops the alias in some cases (%s): `import a.b as b` printed as `import a.b` binds `a`, so the selectors the '
+            'config string writes against `b` no longer resolve when the text is parsed back' % why_a, fm_.loc(), instance='alias-printed')
   im = ctx.cls('config.ImportManager')
   ai = im.methods['add_import']
   g5, facts5 = std_facts(prog, ai)
